@@ -184,6 +184,23 @@ A64Step(P, s) ==
               ELSE AFailS(s, "value", "conditional branch on incomparable operands (" \o s.flags[1].t \o ", " \o s.flags[2].t \o ")"))
         ELSE IF i.a[1].l \notin DOMAIN P.labels THEN AFailS(s, "asm", "undefined label " \o i.a[1].l)
         ELSE IF c = "T" THEN [s EXCEPT !.pc = P.labels[i.a[1].l], !.steps = s.steps + 1] ELSE ANext1(s)
+  ELSE IF op \in {"CBZ", "CBNZ"} THEN        \* compare with zero and branch, flags untouched
+     LET x == A64Get(s, i.a[1].r) c == CmpEq(x, ZeroV)
+     IN IF c = "bad" THEN
+             (IF IsJunk(x) THEN AFailS(s, "undef", "conditional branch on an undefined register")
+              ELSE AFailS(s, "value", "conditional branch on a value incomparable with zero (" \o x.t \o ")"))
+        ELSE IF i.a[2].l \notin DOMAIN P.labels THEN AFailS(s, "asm", "undefined label " \o i.a[2].l)
+        ELSE IF (c = "T") = (op = "CBZ") THEN [s EXCEPT !.pc = P.labels[i.a[2].l], !.steps = s.steps + 1] ELSE ANext1(s)
+  ELSE IF op \in {"NEG", "MVN", "AND", "ORR", "EOR", "LSL", "LSR", "ASR"} THEN   \* forms another instruction selection may use
+     LET x == A64Get(s, i.a[2].r)
+         y == IF op \in {"NEG", "MVN"} THEN IntV(Zero) ELSE IF i.a[3].k = "imm" THEN IntV(i.a[3].w) ELSE A64Get(s, i.a[3].r)
+     IN IF IsJunk(x) \/ IsJunk(y) THEN AFailS(s, "undef", op \o " on an undefined value")
+        ELSE IF x.t # "int" \/ y.t # "int" THEN AFailS(s, "value", op \o " on non-integers")
+        ELSE IF op \in {"LSL", "LSR", "ASR"} /\ (~SmallNat(y.w) \/ y.w[1] > 63) THEN AFailS(s, "value", op \o " by a count outside 0..63")
+        ELSE ANext1(A64Set(s, i.a[1].r, IntV(
+               IF op = "NEG" THEN Neg(x.w) ELSE IF op = "MVN" THEN Not(x.w) ELSE IF op = "AND" THEN BitAnd(x.w, y.w)
+               ELSE IF op = "ORR" THEN BitOr(x.w, y.w) ELSE IF op = "EOR" THEN BitXor(x.w, y.w)
+               ELSE IF op = "LSL" THEN Shl(x.w, y.w[1]) ELSE IF op = "LSR" THEN Shr(x.w, y.w[1]) ELSE Sar(x.w, y.w[1]))))
   ELSE IF op = "B" THEN
      IF i.a[1].l \notin DOMAIN P.labels THEN AFailS(s, "asm", "undefined label " \o i.a[1].l)
      ELSE [s EXCEPT !.pc = P.labels[i.a[1].l], !.steps = s.steps + 1]
